@@ -391,7 +391,12 @@ def execute(script):
                 if op.get('mine_pool'):
                     # the peer's block confirms what is pending here (extends the served head)
                     rb = chain.blocks[w.cm.coinstate.current_chain_hash]
-                    txs = [t for t in w.cm.transaction_pool][:3]
+                    txs, used = [], set()
+                    for t in list(w.cm.transaction_pool):
+                        refs = {(i.output_reference.hash, i.output_reference.index) for i in t.inputs}
+                        if len(txs) < 3 and not (refs & used) and not rules.judge_transaction(t, rb.utxo, sim.sig_cache)[0]:
+                            txs.append(t)          # (a pool holding something invalid at the head is C13's business)
+                            used |= refs
                 clock = w.node_clock()
                 ts = rb.ts + max(1, op.get('dt', 60))
                 if op.get('ahead'):
